@@ -11,6 +11,7 @@ import (
 // field of a parameter): the "filter in place" idiom writes the kept elements over the caller's backing array. That is
 // fine for a slice the function made itself; for a slice it was handed, every other holder of that array - a struct
 // copy of the same configuration section shared by several modules - sees its elements shifted and overwritten.
+// Not listed: the opt-in form `var out []T; if opts.inPlace { out = p[:0] }`, where a fresh slice is the default.
 func inPlaceFilterOfParam(f *ssa.Function) []*ssa.Slice {
 	var out []*ssa.Slice
 	for _, b := range f.Blocks {
@@ -64,6 +65,27 @@ func inPlaceFilterOfParam(f *ssa.Function) []*ssa.Slice {
 				}
 			}
 			follow(sl)
+			// an opt-in: the function builds a fresh slice unless a flag asks for the in-place mode (the start of the
+			// accumulation is a φ of p[:0] and nil / a made slice) - whoever sets the flag owns the consequences
+			optIn := false
+			if refs := sl.Referrers(); refs != nil {
+				for _, r := range *refs {
+					if ph, ok := r.(*ssa.Phi); ok && ph.Block() != sl.Block() {
+						for _, e := range ph.Edges {
+							e = stripConv(e)
+							if isNilConst(e) {
+								optIn = true
+							}
+							if _, ok := e.(*ssa.MakeSlice); ok {
+								optIn = true
+							}
+						}
+					}
+				}
+			}
+			if optIn {
+				continue
+			}
 			if appended {
 				out = append(out, sl)
 			}
